@@ -150,13 +150,18 @@ theorem prime_div_correct (p : Nat) [Fact p.Prime] {a b : Nat} (ha : a < p) (hb 
   div_model (primeOps_faithful p) ha hb rs hrs v h
 
 /-- ★ `toBits_prime`: the bit decomposition of a prime-field element (via SecInt, C06/C30) consists of l bits
-that rebuild `V mod 2^l`, V the canonical signed/unsigned integer of the element -/
-theorem toBits_prime (p : Nat) (sg : Bool) (x l : Nat) :
-    bitsToNat (toBitsPrime p sg x l) = ((Convert.toInt p sg x) % ((2 ^ l : Nat) : Int)).toNat ∧
-    (toBitsPrime p sg x l).length = l ∧ ∀ b ∈ toBitsPrime p sg x l, b < 2 :=
-  toBitsPrime_correct p sg x l
+that rebuild `x mod 2^l`, `x` the canonical UNSIGNED representative of the element — for unsigned and for signed
+fields alike (for signed fields the code adds p to negative integers first, repo fix of C04-signed-prime-field-to-bits) -/
+theorem toBits_prime (p : Nat) (sg : Bool) (x l : Nat) (hx : x < p) :
+    bitsToNat (toBitsPrime p sg x l) = x % 2 ^ l ∧
+    (toBitsPrime p sg x l).length = l ∧ ∀ b ∈ toBitsPrime p sg x l, b < 2 := by
+  obtain ⟨h1, h2, h3⟩ := toBitsPrime_correct p sg x l
+  refine ⟨?_, h2, h3⟩
+  rw [h1, toBitsPrimeArg_eq p sg x hx]
+  have : ((x : Int) % ((2 ^ l : Nat) : Int)) = ((x % 2 ^ l : Nat) : Int) := by push_cast; rfl
+  rw [this, Int.toNat_natCast]
 
-example : toBitsPrime 101 false 99 7 = [1, 1, 0, 0, 0, 1, 1] ∧ toBitsPrime 101 true 99 7 = [0, 1, 1, 1, 1, 1, 1] := by
+example : toBitsPrime 101 false 99 7 = [1, 1, 0, 0, 0, 1, 1] ∧ toBitsPrime 101 true 99 7 = [1, 1, 0, 0, 0, 1, 1] := by
   decide
 
 /-! ## (4) characteristic 2: bitwise operations on the representations -/
